@@ -5,11 +5,11 @@ import support as S
 import t01
 
 RULE = ("one physical problem (7 epochs, default K prior with P0 = 1 yr, poly_trend 2, sampled jitter) expressed with data in {km/s, m/s}, "
-        "prior velocity scales in {km/s, m/s}, period prior in {day, yr}: ln-likelihood differs from the reference exactly by "
+        "prior velocity scales in {km/s, m/s}, period prior in {day, yr}, and (cached path, batches read back from the file) prior-sample columns in {yr, h} x {deg}: ln-likelihood differs from the reference exactly by "
         "n_epochs*ln(unit ratio of the data), equal seeds give the same accepted prior rows and physically equal posterior samples; "
         "non-trivial = a unit assignment different from the reference")
 EXHAUSTIVE = True
-BOUNDED = ["a single physical problem; unit systems {km/s, m/s} x {day, yr}"]
+BOUNDED = ["a single physical problem; unit systems {km/s, m/s} x {day, yr}; sample columns {yr, h} x {deg} on the cached path"]
 BUDGET_S = {"quick": 150, "thorough": 600}
 KERNEL_IN_SYNC = None
 _ref = {}
@@ -25,10 +25,18 @@ def cases(tier, seed):
         for vu in ("km/s", "m/s"):
             for Pu in ("day", "yr"):
                 yield f"{du}/{vu}/{Pu}", {"du": du, "vu": vu, "Pu": Pu, "seed": int(seed) + 4}
+    # prior-sample columns in other (equivalent) units, read back from the cache file in batches (read_batch converts to internal units)
+    for du, vu, Pu in (("km/s", "km/s", "day"), ("m/s", "m/s", "yr")):
+        for cols in ("yr,deg", "h,deg"):
+            yield f"{du}/{vu}/{Pu}/cached/{cols}", {"du": du, "vu": vu, "Pu": Pu, "seed": int(seed) + 4, "cached": True, "cols": cols}
+
+
+def priority(inp):
+    return 0 if inp.get("cached") else 1
 
 
 def nontrivial(inp):
-    return (inp["du"], inp["vu"], inp["Pu"]) != ("km/s", "km/s", "day")
+    return (inp["du"], inp["vu"], inp["Pu"]) != ("km/s", "km/s", "day") or bool(inp.get("cached"))
 
 
 def _run(inp):
@@ -43,10 +51,16 @@ def _run(inp):
     lib = _ref["lib"].copy()
     lib.tbl["P"] = lib.tbl["P"].to(u.Unit(inp["Pu"]))
     lib.tbl["s"] = lib.tbl["s"].to(u.Unit(inp["vu"]))
+    mem = not inp.get("cached")
+    if not mem:
+        Pc, ac = inp["cols"].split(",")
+        lib.tbl["P"] = lib.tbl["P"].to(u.Unit(Pc))
+        lib.tbl["omega"] = lib.tbl["omega"].to(u.Unit(ac))
+        lib.tbl["M0"] = lib.tbl["M0"].to(u.Unit(ac))
     joker = TheJoker(prior, rng=np.random.default_rng(99))
-    ll = joker.marginal_ln_likelihood(data, lib, in_memory=True)
+    ll = joker.marginal_ln_likelihood(data, lib, in_memory=mem)
     joker2 = TheJoker(prior, rng=np.random.default_rng(99))
-    post = joker2.rejection_sample(data, lib, in_memory=True)
+    post = joker2.rejection_sample(data, lib, in_memory=mem)
     return ll, post, len(data)
 
 
@@ -60,6 +74,16 @@ def check(inp):
     ll, post, _ = _run(inp)
     ratio = (1 * u.km / u.s).to_value(u.Unit(inp["du"]))
     want = ll0 - n * np.log(ratio)
+    if inp.get("cached"):
+        # the cached path draws the linear parameters on child generators: its reference is the same cached run with the sample
+        # columns stored in the internal units (day, rad); the likelihood is still compared with the in-memory reference as well
+        rk = ("cached-ref", inp["du"], inp["vu"], inp["Pu"])
+        if rk not in _ref:
+            _ref[rk] = _run(dict(inp, cols="day,rad"))
+        llc, post0, _ = _ref[rk]
+        if not np.allclose(ll, llc, rtol=1e-9, atol=1e-6):
+            bad("likelihood-independent-of-the-units-of-the-sample-columns", maxdiff=float(np.max(np.abs(ll - llc))), cfg=inp)
+            return fails
     if not np.allclose(ll, want, rtol=1e-9, atol=1e-6):
         bad("likelihood-changes-only-by-the-jacobian-constant", maxdiff=float(np.max(np.abs(ll - want))), cfg=inp)
         return fails
